@@ -19,6 +19,7 @@ const PROTOCOL: u64 = 0xC20;
 const KEY: [u8; 32] = [0x20; 32];
 const DT_MS: u64 = 250;
 const TIMEOUT_S: i32 = 2;
+const LOCAL_ID: u64 = 77;
 
 #[derive(Clone, Copy, Debug, PartialEq, Eq)]
 pub enum End {
@@ -33,6 +34,8 @@ pub enum End {
     ServerDisconnectAll,
     /// client 1's process disappears (time-out)
     ClientSilent,
+    /// both clients hold tokens for the same client id (two addresses): at most one session may exist
+    DuplicateId,
 }
 
 #[derive(Clone, Copy, Debug, PartialEq, Eq)]
@@ -59,6 +62,8 @@ pub struct UdpCfg {
     pub fault_from: u32,
     pub tail: u32,
     pub fates: Vec<UFate>,
+    /// a listen-server host: a local client created with RenetServer::new_local_client next to the transport
+    pub local_host: bool,
 }
 
 struct Relay {
@@ -115,6 +120,8 @@ struct World<'c> {
     obtained: BTreeMap<(u8, usize, u8), Vec<Vec<u8>>>,
     end_initiated_tick: Option<u32>,
     faults: u32,
+    local: Option<RenetClient>,
+    local_got: u32,
 }
 
 impl<'c> World<'c> {
@@ -140,10 +147,17 @@ impl<'c> World<'c> {
             server_sock,
         )
         .map_err(|e| Violation::new("machinery/socket", e.to_string()))?;
-        let rs = RenetServer::new(ConnectionConfig::default());
+        let mut rs = RenetServer::new(ConnectionConfig::default());
+        let local = if cfg.local_host {
+            let c = rs.new_local_client(LOCAL_ID);
+            while rs.get_event().is_some() {}
+            Some(c)
+        } else {
+            None
+        };
         let mut clients = vec![];
         for (i, s) in client_socks.into_iter().enumerate() {
-            let id = 500 + i as u64;
+            let id = if cfg.end == End::DuplicateId { 500 } else { 500 + i as u64 };
             let mut ud = [0u8; 256];
             ud[0] = i as u8;
             let token = ConnectToken::generate(Duration::ZERO, PROTOCOL, 60, id, TIMEOUT_S, vec![relays[i].addr], Some(&ud), &KEY)
@@ -165,6 +179,8 @@ impl<'c> World<'c> {
             obtained: BTreeMap::new(),
             end_initiated_tick: None,
             faults: 0,
+            local,
+            local_got: 0,
         })
     }
 
@@ -317,7 +333,7 @@ impl<'c> World<'c> {
             }
             let c = &mut self.clients[i];
             // application: scripted sends and disconnects
-            if tick == self.cfg.send_tick && c.rc.is_connected() {
+            if tick == self.cfg.send_tick && c.rc.is_connected() && self.cfg.end != End::DuplicateId {
                 for ch in 0..3u8 {
                     for (k, len) in [(0u8, 20usize), (1, 2500)] {
                         let m = label(0, i, ch, k, len);
@@ -382,9 +398,11 @@ impl<'c> World<'c> {
         // lock-step: message layer == handshake layer
         let mut renet_ids: Vec<u64> = self.rs.clients_id();
         renet_ids.extend(self.rs.disconnections_id());
+        renet_ids.retain(|id| *id != LOCAL_ID);
         renet_ids.sort();
         let mut netcode_ids: Vec<u64> = self.clients.iter().map(|c| c.id).filter(|id| self.st.client_addr(*id).is_some()).collect();
         netcode_ids.sort();
+        netcode_ids.dedup();
         if renet_ids != netcode_ids {
             return Err(Violation::new(
                 "C20/layers-out-of-step",
@@ -404,6 +422,9 @@ impl<'c> World<'c> {
         // a session without authentic client traffic for longer than the time-out must be gone
         let timeout_ticks = (TIMEOUT_S as u64 * 1000 / DT_MS) as u32;
         for (i, c) in self.clients.iter().enumerate() {
+            if self.cfg.end == End::DuplicateId {
+                break; // two links share one id: the per-link bookkeeping does not identify the session's owner
+            }
             if self.st.client_addr(c.id).is_some() {
                 if let Some(last) = self.relays[i].last_authentic_c2s {
                     if tick > last + timeout_ticks + 1 {
@@ -432,7 +453,7 @@ impl<'c> World<'c> {
             }
         }
         // application: scripted sends and disconnects
-        if tick == self.cfg.send_tick {
+        if tick == self.cfg.send_tick && self.cfg.end != End::DuplicateId {
             for i in 0..self.clients.len() {
                 let id = self.clients[i].id;
                 if self.rs.is_connected(id) {
@@ -463,16 +484,38 @@ impl<'c> World<'c> {
         }
         let (rs, st) = (&mut self.rs, &mut self.st);
         guard("server send_packets", || st.send_packets(rs))?;
+        // the listen-server host: a local client exchanging a message with the server every tick
+        if let Some(lc) = self.local.as_mut() {
+            let rs = &mut self.rs;
+            let mut got = 0u32;
+            guard("local client", || {
+                lc.send_message(DefaultChannel::ReliableOrdered, vec![0x10u8; 8]);
+                rs.send_message(LOCAL_ID, DefaultChannel::ReliableOrdered, vec![0x11u8; 8]);
+                let _ = rs.process_local_client(LOCAL_ID, lc);
+                while rs.receive_message(LOCAL_ID, DefaultChannel::ReliableOrdered).is_some() {
+                    got += 1;
+                }
+                while lc.receive_message(DefaultChannel::ReliableOrdered).is_some() {
+                    got += 1;
+                }
+            })?;
+            self.local_got += got;
+        }
         Ok(())
     }
 
     fn check_end(&self) -> Result<(), Violation> {
         let cfg = self.cfg;
+        if cfg.end == End::DuplicateId {
+            // only the lock-step oracles apply: which of the two handshakes wins is not specified
+            return Ok(());
+        }
         let affected: Vec<usize> = match cfg.end {
             End::None => vec![],
             End::ClientRenetDisconnect | End::ClientTransportDisconnect | End::ServerRenetDisconnect => vec![0],
             End::ServerDisconnectAll => (0..self.clients.len()).collect(),
             End::ClientSilent => vec![1],
+            End::DuplicateId => vec![],
         };
         for (i, c) in self.clients.iter().enumerate() {
             let server_has = self.st.client_addr(c.id).is_some() || self.rs.is_connected(c.id);
@@ -605,6 +648,7 @@ pub fn scenarios(tier: Tier) -> Vec<UdpScenario> {
         ("RenetServer::disconnect(client 0)", End::ServerRenetDisconnect),
         ("transport.disconnect_all", End::ServerDisconnectAll),
         ("client 1 goes silent", End::ClientSilent),
+        ("both clients present tokens for the same client id", End::DuplicateId),
     ] {
         v.push(UdpScenario {
             cfg: UdpCfg {
@@ -618,6 +662,7 @@ pub fn scenarios(tier: Tier) -> Vec<UdpScenario> {
                 // time-out 2 s = 8 ticks, plus resend and teardown
                 tail: 14,
                 fates: all.clone(),
+                local_host: end != End::ServerDisconnectAll,
             },
         });
     }
